@@ -74,6 +74,50 @@ def run(ctx):
                               {"input_hex": hx(x), "input": x.decode(), "other_layout": first[g][1].decode(),
                                "implementation": i, "other_result": " ".join(first[g][0][0]) + " | " + first[g][0][1]})
     ctx.note('re-layout phase done: %d texts' % len(texts))
+    # ---- (a') optional semicolons: the one after the grammar header, after a token definition, after a directive (the one that
+    # ends a rule is mandatory). Written with all of them, then with random subsets removed: accepted either way.
+    # Recorded finding F31: the documented grammar cannot tell `@left AA` followed by the token definition `BB = ...` from the
+    # directive `@left AA BB` (TOKEN is a handle) - there the semicolon is required.
+    T = rd.T
+    semi_cases = []
+    for _ in range(150 if quick else 1500):
+        decls = [[T["grammar"], T["IDENT"]]]
+        for _ in range(rng.choice([1, 2, 3, 5])):
+            k = rng.random()
+            if k < 0.35:
+                decls.append([T["TOKEN"], T["="], rng.choice([T["STRING"], T["REGEX"], T["PREDEF"]])])
+            elif k < 0.6:
+                d = [rng.choice([T["@left"], T["@right"], T["@none"]])]
+                for _ in range(rng.choice([1, 1, 2])):
+                    d += [rng.choice([T["TOKEN"], T["STRING"]])] if rng.random() < 0.75 else [T["<"]] + rd.gen_rule(rng, 2) + [T[">"]]
+                decls.append(d)
+            else:
+                decls.append(rd.gen_rule(rng, 2))
+        full = [x for d in decls for x in d + [T[";"]]]
+        if rd.recognise(full)[0] != "ACCEPT":
+            continue
+        optional = [i for i, d in enumerate(decls) if d[0] != T["IDENT"]]
+        for _ in range(3):
+            drop = set(i for i in optional if rng.random() < 0.5)
+            var = [x for i, d in enumerate(decls) for x in d + ([] if i in drop else [T[";"]])]
+            f31 = any(i in drop and decls[i][0] in (T["@left"], T["@right"], T["@none"]) and i + 1 < len(decls) and decls[i + 1][0] == T["TOKEN"] for i in range(len(decls)))
+            semi_cases.append((full, var, f31))
+    if semi_cases:
+        def txt_of(toks):
+            return rd.render(rng, toks)[0].encode()
+        a = ctx.run_impl("parse", ["-1 " + hx(txt_of(f)) for f, _, _ in semi_cases])
+        b = ctx.run_impl("parse", ["-1 " + hx(txt_of(v)) for _, v, _ in semi_cases])
+        nf31 = 0
+        for (full, var, f31), ra, rb in zip(semi_cases, a, b):
+            acc_a, acc_b = split_out(ra)[1] == "ACCEPT", split_out(rb)[1] == "ACCEPT"
+            if acc_a != acc_b:
+                if f31 and any(f["id"] == "F31" for f in known_for("C13")):
+                    nf31 += 1
+                    continue
+                ctx.add_violation("removing optional semicolons changed whether the specification is accepted",
+                                  {"with_all_semicolons": [rd.TERMS[x] for x in full], "with_some_removed": [rd.TERMS[x] for x in var],
+                                   "accepted_with_all": acc_a, "accepted_with_some_removed": acc_b})
+        ctx.note("optional-semicolon phase done: %d pairs, %d explained by F31" % (len(semi_cases), nf31))
     # ---- (b) padding sweep across both buffer-half boundaries (and beyond), several pad kinds and insertion points
     sweeps = []
     nsw = 6 if quick else 40
